@@ -139,6 +139,8 @@ def read_glsl(text):
         return "oof", str(e)
     except glslread.ReadError as e:
         return "bad", str(e)
+    except glslread.IllFormed as e:
+        return "illformed", str(e)
     except RecursionError:
         return "oof", "nesting too deep for the reader"
 
